@@ -247,7 +247,8 @@ func installedWitnessCopyOp(g *Rng, kp *KeyPair) Op {
 
 func genC20(g *Rng, tier string, emit func(Op)) {
 	thorough := tier == "thorough"
-	emit(inflightRefreshOp(g, fixedKey("k1024a", true), 3))
+	// (last, so that the ops below do not depend on what it draws)
+	defer func() { emit(inflightRefreshOp(g, fixedKey("k1024a", true), 3)) }()
 	// the safe-prime workers stopped either way (close / send), the consumer still reading: what a
 	// concurrent search delivers is as valid as what a sequential one returns (never nil), and no
 	// worker is left (executor shared with C16)
